@@ -442,11 +442,46 @@ func ruleClientsConsistent(c *Ctx) {
 	info := fi.Pkg.TypesInfo
 	id, p := paramObjs(info, fi.Decl)[0], paramObjs(info, fi.Decl)[1]
 	var loop *ast.RangeStmt
-	for _, st := range fi.Decl.Body.List {
-		if rs, ok := st.(*ast.RangeStmt); ok {
-			if se, ok := ast.Unparen(rs.X).(*ast.SelectorExpr); ok && se.Sel.Name == "cs" {
-				loop = rs
+	body := fi.Decl.Body.List
+	for depth := 0; depth < 3 && loop == nil; depth++ {
+		for _, st := range body {
+			if rs, ok := st.(*ast.RangeStmt); ok {
+				if se, ok := ast.Unparen(rs.X).(*ast.SelectorExpr); ok && se.Sel.Name == "cs" {
+					loop = rs
+				}
 			}
+		}
+		if loop != nil || len(body) == 0 {
+			break
+		}
+		// the whole check handed to a helper spliced in as the last statement (`return s.helper(id, p)`): look
+		// inside, with the helper's parameters standing for id and p
+		blk, ok := body[len(body)-1].(*ast.BlockStmt)
+		fr := inlineFrames[blk]
+		if !ok || fr == nil || !fr.IsReturn {
+			break
+		}
+		nid, np := types.Object(nil), types.Object(nil)
+		for o, a := range fr.Binds {
+			switch objOfIdent(info, a) {
+			case id:
+				nid = o
+			case p:
+				np = o
+			}
+		}
+		if nid == nil || np == nil {
+			break
+		}
+		id, p = nid, np
+		body = nil
+		for _, st := range blk.List {
+			if as, ok := st.(*ast.AssignStmt); ok && as.Tok == token.DEFINE && len(as.Lhs) == 1 {
+				if _, isBind := fr.Binds[objOfIdent(info, as.Lhs[0])]; isBind {
+					continue
+				}
+			}
+			body = append(body, st)
 		}
 	}
 	if loop == nil {
@@ -500,7 +535,7 @@ func ruleClientsConsistent(c *Ctx) {
 		}
 	}
 	// after the loop: consistent
-	last := fi.Decl.Body.List[len(fi.Decl.Body.List)-1]
+	last := body[len(body)-1]
 	if rs, ok := last.(*ast.ReturnStmt); !ok || len(rs.Results) != 2 || types.ExprString(rs.Results[0]) != "true" {
 		bad = "the verdict after examining every session is not 'consistent'"
 	}
